@@ -48,12 +48,36 @@ func StaticCallee(c *ssa.CallCommon) *ssa.Function {
 	}
 	switch v := c.Value.(type) {
 	case *ssa.Function:
-		return v
+		return unwrapPromoted(v)
 	case *ssa.MakeClosure:
 		f, _ := v.Fn.(*ssa.Function)
 		return f
 	}
 	return nil
+}
+
+// unwrapPromoted looks through the synthetic wrapper go/ssa creates for a method promoted
+// through an embedded field (e.g. (*shard).put → (*cache).put).
+func unwrapPromoted(f *ssa.Function) *ssa.Function {
+	for i := 0; i < 3 && f != nil && strings.HasPrefix(f.Synthetic, "wrapper for") && f.Blocks != nil; i++ {
+		var target *ssa.Function
+		n := 0
+		for _, b := range f.Blocks {
+			for _, in := range b.Instrs {
+				if call, ok := in.(*ssa.Call); ok {
+					if t, ok := call.Call.Value.(*ssa.Function); ok && t.Name() == f.Name() {
+						target = t
+						n++
+					}
+				}
+			}
+		}
+		if n != 1 {
+			return f
+		}
+		f = target
+	}
+	return f
 }
 
 // callOf returns the CallCommon of an instruction that is a call, go or defer.
